@@ -126,7 +126,49 @@ def loop_modset(I, s, env):
     extra = []
     for c in calls:
         extra.extend(call_mods(I, c, env, 0))
-    return names, paths + extra
+    paths = paths + extra
+    return names, paths + alias_sources(s, names, paths)
+
+
+def alias_sources(s, names, paths):
+    """A store through a name that is (re)bound inside the loop (`rec = edges.get(k); rec["w"] = x`,
+    `for k, rec in edges.items(): rec["w"] = x`) mutates whatever that name aliases: every name mentioned
+    in the expressions the alias is bound from is added to the havoc set (transitively, conservatively)."""
+    bound_from = {}
+
+    def note(target, value):
+        tn = set()
+        _target_names(target, tn)
+        src = {n.id for n in ast.walk(value) if isinstance(n, ast.Name)}
+        for t in tn:
+            bound_from.setdefault(t, set()).update(src)
+
+    for st in [s] + [n for b in list(s.body) + list(s.orelse) for n in ast.walk(b)]:
+        if isinstance(st, ast.Assign):
+            for t in st.targets:
+                note(t, st.value)
+        elif isinstance(st, ast.AnnAssign) and st.value is not None:
+            note(st.target, st.value)
+        elif isinstance(st, ast.For):
+            note(st.target, st.iter)
+        elif isinstance(st, ast.NamedExpr):
+            note(st.target, st.value)
+    todo = [r for r in (_root(p) for p in paths if not isinstance(p, str)) if r in names]
+    seen = set()
+    out = []
+    while todo:
+        r = todo.pop()
+        if r in seen:
+            continue
+        seen.add(r)
+        for src in sorted(bound_from.get(r, ())):
+            if src in names:
+                todo.append(src)
+            if src not in seen:
+                nm = ast.Name(id=src, ctx=ast.Load())
+                nm._alias_src = True
+                out.append(nm)
+    return out
 
 
 def call_mods(I, call, env, depth):
